@@ -434,21 +434,24 @@ pub fn make_case(seed: u64, run: u64, thorough: bool, _stats: &mut Stats) -> Opt
                 // names in roles they were not made for: `start` as a data label, jumps and calls
                 // to data labels, offsets and memory operands of code labels, a procedure and a
                 // label of the same name, a macro named like a label, everything defined twice
-                let pieces: [&str; 14] = [
-                    "start: db 1", "buffer: db [16]", "start: dw [3]", "x: db 2", "x:", "def x { inc ax }", "macro x() -> inc bx <-",
-                    "jmp buffer", "call buffer", "call x", "mov ax, offset x", "mov al, byte x", "x()", "jmp x",
-                ];
+                let defs: [&str; 8] = ["start: db 1", "buffer: db [16]", "start: dw [3]", "x: db 2", "buffer: db [300]", "start: db \"entry\"", "set 0x20", "y: dw 7"];
+                let odd: [&str; 9] = ["x:", "def x { inc ax }", "macro x() -> inc bx <-", "jmp buffer", "call buffer", "call x", "mov ax, offset x", "x()", "jmp x"];
                 let mut t = String::new();
-                let n = r.urange(3, 8);
-                for _ in 0..n {
-                    t.push_str(*r.pick(&pieces));
+                for _ in 0..r.urange(1, 4) {
+                    t.push_str(*r.pick(&defs));
                     t.push('\n');
                 }
-                if r.chance(50) {
+                if r.chance(35) {
                     t.push_str("start:\n");
                 }
-                for _ in 0..r.urange(1, 4) {
-                    t.push_str(*r.pick(&["inc ax", "print reg", "jmp x", "call x", "x()", "mov bx, offset buffer", "hlt"]));
+                for _ in 0..r.urange(0, 2) {
+                    if r.chance(30) {
+                        t.push_str(*r.pick(&odd));
+                        t.push('\n');
+                    }
+                }
+                for _ in 0..r.urange(1, 5) {
+                    t.push_str(*r.pick(&["inc ax", "print reg", "mov bx, offset buffer", "hlt", "mov al, byte x", "mov cx, 3", "print mem : 4"]));
                     t.push('\n');
                 }
                 src = t.into_bytes();
